@@ -801,6 +801,25 @@ func boolTest(ifi *ssa.If) (v ssa.Value, trueSucc int) {
 			trueSucc = 1 - trueSucc
 			continue
 		}
+		// x == true, x != false, x == false, x != true
+		if b, ok := cond.(*ssa.BinOp); ok && (b.Op == token.EQL || b.Op == token.NEQ) {
+			var other ssa.Value
+			var k, isConst bool
+			if kv, isC := constBool(b.Y); isC {
+				other, k, isConst = b.X, kv, true
+			} else if kv, isC := constBool(b.X); isC {
+				other, k, isConst = b.Y, kv, true
+			}
+			if isConst {
+				if bt, isB := other.Type().Underlying().(*types.Basic); isB && bt.Kind() == types.Bool {
+					if (b.Op == token.EQL) != k {
+						trueSucc = 1 - trueSucc
+					}
+					cond = other
+					continue
+				}
+			}
+		}
 		return cond, trueSucc
 	}
 }
